@@ -451,7 +451,7 @@ func C09(r *h.Run) {
 // bytes — all of them, whatever their number — are never handed to user code, and the messages of
 // at most N bytes that follow are accepted.
 func c09AfterRefusal(r *h.Run) {
-	sizes := []int{17, 70000, 4 << 20, 4<<20 + 1, 5<<20 + 7}
+	sizes := []int{17, 300, 2000, 70000, 4 << 20, 4<<20 + 1, 5<<20 + 7}
 	if r.Thorough() {
 		sizes = append(sizes, 4<<20-1, 8<<20+1, 12<<20)
 	}
@@ -471,18 +471,22 @@ func c09AfterRefusal(r *h.Run) {
 			}
 			body := append(append(h.Frame(0, []byte{1}), h.Frame(0, refused)...), h.Frame(0, []byte{7})...)
 			var obs []string
+			var items []obsItem
 			handler := connect.NewBidiStreamHandler("/verif.Svc/M", func(_ context.Context, s *connect.BidiStream[h.Raw, h.Raw]) error {
 				for i := 0; i < 12; i++ {
 					m, err := s.Receive()
 					if errors.Is(err, io.EOF) {
 						obs = append(obs, "eof")
+						items = append(items, obsItem{Kind: "eof"})
 						return nil
 					}
 					if err != nil {
 						obs = append(obs, "err "+connect.CodeOf(err).String())
+						items = append(items, obsItem{Kind: "err", Code: connect.CodeOf(err)})
 						continue
 					}
 					obs = append(obs, "msg "+h.Hex(m.B))
+					items = append(items, obsItem{Kind: "msg", B: append([]byte(nil), m.B...)})
 				}
 				return nil
 			}, cfg.handlerOpts()...)
@@ -499,6 +503,17 @@ func c09AfterRefusal(r *h.Run) {
 				continue
 			}
 			r.Sample("after_refusal", map[string]any{"in": in, "observed": obs})
+			if size <= 4096 {
+				// the model's reader (Envelope.recv_n: Receive after Receive, errors included) on the
+				// same bytes: theorem refusal_skips_exactly_the_refused_frame is about this function
+				coqItems := make([]string, len(items))
+				for i, o := range items {
+					coqItems[i] = o.coq()
+				}
+				r.Case("after_refusal", fmt.Sprintf("HRecv %s %d %s %s %s %s %s", cfg.coqProto(), cfg.Max, cfg.coqAlgo(), h.CoqBool(true),
+					h.CoqBytesList([][]byte{body}), h.FinCleanEOF.Coq(), h.CoqList(coqItems)),
+					map[string]any{"in": in, "impl_observed": obs})
+			}
 			ok := len(obs) == 4 && obs[0] == "msg 01" && strings.HasPrefix(obs[1], "err ") && obs[2] == "msg 07" && obs[3] == "eof"
 			if !ok {
 				key := "limit/within-limit-refused"
